@@ -54,7 +54,8 @@ def main():
                     r = sh("python3 %s/check %s --tier quick --seed %d" % (V, chk, seed), env=env)
                     sigs = re.findall(r"signature: (\S+)", r.stdout)
                     viol = [l for l in r.stdout.splitlines() if l.startswith("VIOLATION")]
-                    ran.append({"cmd": "git -C /repo apply seeded/%s/patch.diff; ./check %s --tier quick --seed %d" % (sid, chk, seed),
+                    ran.append({"cmd": ("seeded/%s/patch.diff applied to a scratch copy of /repo's HEAD (VERIF_REPO=<copy>); ./check %s --tier quick --seed %d" if copy else
+                                        "git -C /repo apply seeded/%s/patch.diff; ./check %s --tier quick --seed %d") % (sid, chk, seed),
                                 "exit": r.returncode, "violation_lines": len(viol), "signatures": sorted(set(sigs))[:6],
                                 "wall_s": round(time.time() - t0, 1)})
                     print(sid, chk, "seed", seed, "exit", r.returncode, sorted(set(sigs))[:3], flush=True)
